@@ -193,6 +193,13 @@ package slip
 //@   on-store Val visible-and-not-constant: (vv.Export || CurrentPackage == obj || private) && !vv.Const && vv == obj.vars[name]
 //@   on-map-update vars users-get-the-same-cell: $value == vv && $key == name && $was == nil
 
+// function lookup: what is found comes from the table of the package that was
+// asked, under the unpacked name, and is visible from where the lookup is made
+// (exported, or the current package's own, or asked for with ::).
+//@ func slip.FindFunc
+//@   property C13 C08
+//@   ensures visible-from-here: fi != nil ==> (private || fi.Export || CurrentPackage == fi.Pkg)
+
 // import: the imported name refers to the very object of the source package and
 // is recorded with its origin.
 //@ func slip.(*Package).Import
